@@ -21,6 +21,11 @@ type G struct {
 	wait   func() bool // nil = runnable
 	why    string
 	exited chan struct{}
+	// locks held (for the race recorder): lock cell -> 1 read / 2 write mode;
+	// parent and the parent's locks at spawn time
+	locks   map[*value]int
+	parent  *G
+	inherit map[*value]int
 }
 
 type killSig struct{}
@@ -43,6 +48,13 @@ func (e *Exec) initSched() {
 
 func (e *Exec) spawn(run func()) {
 	g := &G{id: len(e.gs), resume: make(chan struct{}, 1), exited: make(chan struct{})}
+	if e.cur != nil {
+		g.parent = e.cur
+		g.inherit = map[*value]int{}
+		for l, m := range e.cur.locks {
+			g.inherit[l] = m
+		}
+	}
 	e.gs = append(e.gs, g)
 	go func() {
 		defer close(g.exited)
